@@ -37,6 +37,8 @@ def plan(tier, seed):
         for i in range(110 if quick else 2500):
             nd = int(pick(rng, [1, 2, 2, 3]))
             lim = 7 if quick else 10
+            if i % 8 == 7:         # size-dependent regime: long axes (past 16 / 32)
+                lim = [40, 20, 11][nd - 1]
             shape = [int(rng.integers(1, lim + 1)) for _ in range(nd)]
             c = {"fn": f, "shape": shape, "cplx": bool(rng.random() < 0.5),
                  "dt": pick(rng, ["default", "default", "default", "float32", "complex64",
@@ -78,7 +80,7 @@ def plan(tier, seed):
                                    for s, ff, h in zip(shape, c["factors"], sh)]
             else:
                 D = nd
-                batch = pick(rng, [[], [], [2], [2, 1], [2, 3]])
+                batch = pick(rng, [[], [], [2], [2, 1], [2, 3], [5]])
                 c["batch"] = batch
                 c["blk"] = [int(rng.integers(1, s + 1)) for s in shape]
                 c["strides"] = [int(rng.integers(1, b + 2)) for b in c["blk"]]
@@ -88,6 +90,7 @@ def plan(tier, seed):
 
 _DT = ["default"]
 _NC = [False]
+_MG = [0]          # power-of-two exponent applied to the labels (exact in every float type)
 
 
 def label(shape, cplx):
@@ -96,6 +99,8 @@ def label(shape, cplx):
         x = x + 1j * x
     if _DT[0] != "default":
         x = x.astype(_DT[0])
+    if _MG[0] and x.dtype.kind in "fc":
+        x = x * x.dtype.type(2.0 ** _MG[0])      # ~1e-10 / ~1e+8: still exactly representable
     if _NC[0] in (True, "strided") and x.ndim >= 1:
         # same values seen through a strided (non-contiguous) view
         big = np.zeros(tuple(2 * n for n in x.shape), x.dtype)
@@ -228,6 +233,7 @@ def run_one(case):
     op = None
     _DT[0] = case.get("dt", "default")
     _NC[0] = case.get("noncontig") or False
+    _MG[0] = [0, 0, 0, -34, 27][sum(case["rs"]) % 5]
     try:
         if f in ("resize", "resize-shift"):
             x = label(shape, cplx)
